@@ -504,7 +504,7 @@ def _cantilever(Rod, A=None, c=None, nelements=3, constitutive="Simo1986"):
     rod = Rod(cs, law, nelements, Q=q0, q0=q0)
     wall = Frame(r_OP=c, A_IB=A, name="wall")
     P = lambda t: law.Fi[2] * (10 * t) / length**2
-    s.add(rod, wall, RigidConnection(wall, rod, xi2=(0,)), Force(lambda t: -P(t) * (A @ np.array([0, 1.0, 0])), rod, (1,)), B_Moment(lambda t: 2.5 * P(t) * np.array([0, 0, 1.0]), rod, (1,)))
+    s.add(rod, wall, RigidConnection(wall, rod, xi2=(0,)), Force(lambda t: -P(t) * (A @ np.array([0, 1.0, 0])), rod, (1,), B_r_CP=np.array([0.0, 0.03, 0.02])), B_Moment(lambda t: 2.5 * P(t) * np.array([0, 0, 1.0]), rod, (1,)))
     s.assemble(options=SolverOptions(compute_consistent_initial_conditions=False))
     return s, rod
 
